@@ -67,17 +67,17 @@ type accepted struct {
 }
 
 type result struct {
-	out       vsched.Outcome
-	events    []hm.Event
-	accepted  []accepted
-	acceptErr string
-	clients   []*vnet.Conn // client ends
-	servers   []*vnet.Conn // server ends (what layer4 holds)
-	injected  int
-	closed    bool
+	out        vsched.Outcome
+	events     []hm.Event
+	accepted   []accepted
+	acceptErr  string
+	clients    []*vnet.Conn // client ends
+	servers    []*vnet.Conn // server ends (what layer4 holds)
+	injected   int
+	closed     bool
 	lateAccept string
-	taken     map[int]bool // connections the wrapper's loop accepted from the underlying listener
-	mu        sync.Mutex
+	taken      map[int]bool // connections the wrapper's loop accepted from the underlying listener
+	mu         sync.Mutex
 }
 
 func execute(x *explore.Exec, sc *Scn) *result {
@@ -362,7 +362,7 @@ func main() {
 	runner.Main(&runner.Harness{
 		ID:    "C13",
 		Level: "model_checking",
-		Rule: "mixes of 1-2 (3 thorough) connections of kinds {terminal-route match, fall-through, fall-through after a non-terminal route consumed 2 bytes, undecided until the matching timeout, matcher error} x consumer {Accept eagerly, only after all matching ended, never} x hand-off channel capacity {1,2} x listener Close before connection k / at the end x payload {3, 9 bytes}; every interleaving of the real listener loop, handle goroutines, Accept, Close and the consumer within the joint deviation budget (delay bounding; 3 quick / 4 thorough for the mixes around a falling-through connection with channel capacity 1, one less otherwise: preemptions, select alternatives, early timers, pool misses, short reads); the buffer pool is a deterministic LIFO so that reuse of a just-returned buffer is the default",
+		Rule:  "mixes of 1-2 (3 thorough) connections of kinds {terminal-route match, fall-through, fall-through after a non-terminal route consumed 2 bytes, undecided until the matching timeout, matcher error} x consumer {Accept eagerly, only after all matching ended, never} x hand-off channel capacity {1,2} x listener Close before connection k / at the end x payload {3, 9 bytes}; every interleaving of the real listener loop, handle goroutines, Accept, Close and the consumer within the joint deviation budget (delay bounding; 3 quick / 4 thorough for the mixes around a falling-through connection with channel capacity 1, one less otherwise: preemptions, select alternatives, early timers, pool misses, short reads); the buffer pool is a deterministic LIFO so that reuse of a just-returned buffer is the default",
 		Assumptions: []string{
 			"the code under test is /repo's working tree mechanically redirected to the scheduler (tools/gomcrw); sync.Pool is replaced by a deterministic LIFO pool",
 			"TLS-terminated fall-through is covered by C01's TLS chains and the tlsConnection wrapper is not exercised here",
@@ -390,6 +390,7 @@ func main() {
 				ex.Bounds[explore.KTime] = 1
 			}
 			ex.Stop = rep.Expired
+			vsched.StateSink = rep.State
 			ex.Explore(func(x *explore.Exec) { check(x, sc, execute(x, sc)) })
 			rep.AddStats(sc, &ex.Stats)
 			if os.Getenv("VERIF_STATS") != "" {
